@@ -11,6 +11,44 @@ use x25519_dalek::{PublicKey, StaticSecret};
 
 pub const NTYPES: u8 = 11;
 
+/// a writer that accepts `room` bytes and then fails
+struct Bounded {
+    room: usize,
+}
+impl std::io::Write for Bounded {
+    fn write(&mut self, b: &[u8]) -> std::io::Result<usize> {
+        if b.len() > self.room {
+            self.room = 0;
+            return Err(std::io::Error::new(std::io::ErrorKind::Other, "sink full"));
+        }
+        self.room -= b.len();
+        Ok(b.len())
+    }
+    fn flush(&mut self) -> std::io::Result<()> {
+        Ok(())
+    }
+}
+
+/// a serialiser error must surface: with a sink that fails part-way (every cut-off below the full length,
+/// bincode and JSON), `serialize` must return Err - an impl that swallows the error reports a truncated
+/// encoding as success (seeded change C16h)
+fn sink_errors_propagate<T: Serialize>(v: &T, blen: usize, jlen: usize) -> bool {
+    let mut ok = true;
+    for room in [0usize, 1, blen / 2, blen.saturating_sub(1)] {
+        if room < blen {
+            ok &= bincode::serialize_into(Bounded { room }, v).is_err();
+            let mut small = vec![0u8; room];
+            ok &= bincode::serialize_into(&mut small[..], v).is_err();
+        }
+    }
+    for room in [0usize, 1, jlen / 2, jlen.saturating_sub(1)] {
+        if room < jlen {
+            ok &= serde_json::to_writer(Bounded { room }, v).is_err();
+        }
+    }
+    ok
+}
+
 fn ser_both<T: Serialize>(v: &T) -> Option<(Vec<u8>, Vec<u8>)> {
     Some((bincode::serialize(v).ok()?, serde_json::to_vec(v).ok()?))
 }
@@ -96,6 +134,7 @@ macro_rules! roundtrip {
             }
             _ => o.extend_from_slice(b"deserialize(serialize(v)) failed"),
         }
+        o.push(sink_errors_propagate(&v, b.len(), j.len()) as u8);
         Out::Ok(o)
     }};
 }
